@@ -8,5 +8,7 @@ CONSTANTS
   ServeFails = TRUE
   DeferUnreport = TRUE
   LockedAdd = TRUE
-INVARIANTS NoPanic OutcomeOK CountersNonNeg CountersBalanced LockNotLeaked NoWedge
+  Counting = TRUE
+  TrackKey = "pair"
+INVARIANTS ServedShown TrackedWhileServing TrackerEmptied NoPanic OutcomeOK CountersNonNeg CountersBalanced LockNotLeaked NoWedge
 CHECK_DEADLOCK FALSE
